@@ -3,6 +3,8 @@
   covariance.  Statements over ℝ about Gen/UncertR.lean (instantiation of Scalar/Uncert.lean.in).
 -/
 import Gen.UncertR
+import Model.UncLoop
+import Proofs.UncLoop
 import Mathlib.Algebra.BigOperators.Group.List.Basic
 import Mathlib.Analysis.SpecialFunctions.Sqrt
 import Mathlib.Tactic.Ring
@@ -109,3 +111,76 @@ example : LocallyQuadratic (fun θ => 3 + 2 * θ.getD 0 0 - θ.getD 1 0 + (θ.ge
   | (n + 2) => simp [shiftAt, List.zipIdx]
 
 end Gep.R.C18
+
+/-! ### the parameter bookkeeping of `predict(uncertainty=True)` (Model/UncLoop.lean): every evaluation sees the
+    caller's parameters with ONE entry shifted, and the dictionary is exactly restored afterwards — also when the
+    observable raises -/
+namespace Gep.Unc
+open Gep.Fit Gep.Pred
+
+variable {V H R : Type}
+
+/-- **the parameters are left exactly as they were**: after the whole loop — completed or ended by an exception of
+    the observable at any of its 2·n evaluations — `theory.parameters` is the dictionary it was before -/
+theorem loop_params_restored (ev : List (Name × V) → Res R) (up dn : V → H → V) (herr : Name → Option H)
+    (ps : List (Name × V)) (pars : List Name) : (loop ev up dn herr ps pars).params = ps := by
+  induction pars with
+  | nil => rfl
+  | cons p rest ih =>
+    have hs := stepP_params ev up dn herr ps p
+    unfold loop
+    rcases hst : stepP ev up dn herr ps p with ⟨ps', tr, r⟩
+    rw [hst] at hs
+    simp only at hs
+    subst hs
+    cases r with
+    | exc e => rfl
+    | val ud => obtain ⟨u, d⟩ := ud; simpa using ih
+
+/-- every dictionary the observable is evaluated at differs from the caller's in exactly the one parameter being
+    varied: all other entries are read as they were -/
+theorem loop_trace_one_coordinate (ev : List (Name × V) → Res R) (up dn : V → H → V) (herr : Name → Option H)
+    (ps : List (Name × V)) (pars : List Name) :
+    ∀ d ∈ (loop ev up dn herr ps pars).trace, ∃ p ∈ pars, ∀ n, n ≠ p → dget d n = dget ps n := by
+  induction pars with
+  | nil => intro d hd; simp [loop] at hd
+  | cons p rest ih =>
+    intro d hd
+    have hs := stepP_params ev up dn herr ps p
+    have ht := stepP_trace ev up dn herr ps p
+    unfold loop at hd
+    rcases hst : stepP ev up dn herr ps p with ⟨ps', tr, r⟩
+    rw [hst] at hs ht hd
+    simp only at hs ht
+    subst hs
+    cases r with
+    | exc e =>
+      simp only at hd
+      exact ⟨p, List.mem_cons_self, ht d hd⟩
+    | val ud =>
+      obtain ⟨u, dd⟩ := ud
+      simp only [List.mem_append] at hd
+      rcases hd with hd | hd
+      · exact ⟨p, List.mem_cons_self, ht d hd⟩
+      · obtain ⟨q, hq, hqn⟩ := ih d hd
+        exact ⟨q, List.mem_cons_of_mem _ hq, hqn⟩
+
+/-- the loop without `finally` (before fix a0c2b37) did NOT have the property: an observable that raises at the
+    shifted point leaves the shifted value behind -/
+theorem old_loop_refuted :
+    let ps : List (Name × Nat) := [("a", 10), ("b", 20)]
+    let ev : List (Name × Nat) → Res Nat := fun d => if dget d "a" = some 11 then .exc "ValueError" else .val 0
+    (stepPOld ev (fun m h => m + h) (fun m h => m - h) (fun _ => some 1) ps "a").1 = [("a", 11), ("b", 20)] ∧
+    (stepP ev (fun m h => m + h) (fun m h => m - h) (fun _ => some 1) ps "a").1 = ps := by
+  decide
+
+/-- non-vacuity: two free parameters, the second evaluation of the second one raises -/
+example :
+    let ps : List (Name × Nat) := [("a", 10), ("b", 20), ("c", 30)]
+    let ev : List (Name × Nat) → Res Nat := fun d => if dget d "b" = some 19 then .exc "boom" else .val ((dget d "a").getD 0)
+    let r := loop ev (fun m h => m + h) (fun m h => m - h) (fun _ => some 1) ps ["a", "b"]
+    r.params = ps ∧ r.trace.length = 4 ∧ r.out = .exc "boom" := by
+  decide
+
+
+end Gep.Unc
